@@ -613,13 +613,17 @@ impl MediaStreamTrack for SampleStreamTrack {
                 let _pop_guard = self.pop_lock.lock();
                 #[cfg(rustrtc_verif)]
                 let _verif_before_unlock = VerifSchedOnDrop("r_unlock");
+                // Read the flag before the queue: every push happens before the close, so
+                // "closed, then empty" means drained. Checking it after `pop()` returned
+                // `None` would turn a push + close in between into a lost final sample.
+                #[cfg(rustrtc_verif)]
+                crate::verif::sched("r_closed");
+                let closed = self.source_closed.load(Ordering::Acquire);
                 if let Some(sample) = self.queue.pop() {
                     return Ok(sample);
                 }
 
-                #[cfg(rustrtc_verif)]
-                crate::verif::sched("r_closed");
-                if self.source_closed.load(Ordering::Acquire) {
+                if closed {
                     #[cfg(rustrtc_verif)]
                     crate::verif::sched("r_setended");
                     self.ended.store(true, Ordering::SeqCst);
